@@ -757,3 +757,107 @@ example : stereo (0 : ℝ) 100 0 100 0 0 0 = (0, 100) := by simp [stereo]
 example : stereoInv (0 : ℝ) 100 100 0 0 0 = (0, 100, 0) := by simp [stereoInv]; norm_num
 
 end Proj
+
+/-! ### Round 4: branch theorems of the case splits, sibling functions, container shapes
+
+The harness feeds the real functions the same data as tuple / list / generator / `iter` / `map` / dict view /
+deque and the flag as any truthy / falsy object; the model takes `List`s and `Bool`s only, so on the model side
+there is one answer per content — what is proved here are the *branch* facts (each arm of a case split in the
+anchored code gives what the other arm / the general formula would give where they meet) and the *sibling*
+facts (functions the statement makes agree do agree). -/
+
+namespace Dome
+
+/-- Branch theorem of `_patch_row_count_array`: the `division_count == 1` shortcut (the class constant itself,
+a tuple) is exactly what the general comprehension `[c * n for c in base for i in range(n)]` gives for `n = 1`
+(a list): the two arms of the `if` agree where they meet. -/
+theorem C20_rows_shortcut_agrees (base : List Nat) :
+    rowCountsOf base 1 = base.flatMap fun c => List.replicate (1 : Int).toNat (c * (1 : Int).toNat) := by
+  induction base with
+  | nil => simp [rowCountsOf]
+  | cons c rest ih => simp [rowCountsOf] at ih ⊢
+
+/-- The band count of `_patch_count_in_radial_offset` when `int(round(q))` is a natural number `k`: the patches
+of the first `k` rows (Python slice `rows[:k]`, any `k`, also past the end). -/
+theorem C20_band_prefix (rows : List Nat) (q : Rat) (k : Nat) (h : Py.round q = (k : Int)) :
+    offsetPatchCountQ rows q = (rows.take k).sum := by
+  unfold offsetPatchCountQ Py.slice Py.clampIdx
+  rw [h]
+  simp only [le_refl, if_true, Int.toNat_zero, Nat.zero_min, List.drop_zero, Nat.sub_zero,
+    Int.natCast_nonneg, Int.toNat_natCast]
+  rw [List.take_eq_take_min]
+  -- `take (min k len)` = `take k`
+  congr 1
+  simp
+
+/-- Empty-band branch (`round` gives 0: offset below half a row): no patch is selected. -/
+theorem C20_band_empty (rows : List Nat) (q : Rat) (h : Py.round q = 0) : offsetPatchCountQ rows q = 0 := by
+  have := C20_band_prefix rows q 0 (by simpa using h)
+  simpa using this
+
+/-- Saturation branch (`round` reaches or passes the number of rows: offsets of 90° − half a row and more): the
+band holds every quad patch and never the zenith patch — the slice stops at the end of the row table. -/
+theorem C20_band_saturates (rows : List Nat) (q : Rat) (k : Nat) (h : Py.round q = (k : Int))
+    (hk : rows.length ≤ k) : offsetPatchCountQ rows q = rows.sum := by
+  rw [C20_band_prefix rows q k h, List.take_of_length_le hk]
+
+/-- Whatever the offset (negative ones included: Python slices from the end), the band never holds more than
+the quad patches: its weights are a prefix of the dome areas that excludes the zenith patch. -/
+theorem C20_band_le (rows : List Nat) (q : Rat) : offsetPatchCountQ rows q ≤ rows.sum := by
+  unfold offsetPatchCountQ Py.slice
+  exact List.Sublist.sum_le_sum ((List.take_sublist _ _).trans (List.drop_sublist _ _)) (by simp)
+
+/-- Python's `round` (ties to even) lands within half a unit of its argument, ties included. -/
+theorem C20_round_within_half (q : Rat) : |((Py.round q : Int) : Rat) - q| ≤ 1 / 2 := by
+  have h1 := Rat.floor_le q
+  have h2 : q < (q.floor : Rat) + 1 := by
+    have := Rat.lt_floor_add_one q
+    push_cast at this
+    exact this
+  unfold Py.round
+  simp only
+  rw [abs_le]
+  split_ifs with ha hb hc <;> constructor <;> push_cast <;> linarith
+
+/-- Convention theorem for the offset angle (kind g): with rows `v` high (`v > 0`, the offset and `v` in the SAME
+unit) the band selected by `_patch_count_in_radial_offset` ends at `round(off / v) · v`, which is within half a
+row of the offset angle — as long as the rounded row count does not pass the last row (`C20_band_saturates`
+then cuts it there). The oracle measures exactly this on the generated mesh (`band_extent`). -/
+theorem C20_band_reaches_offset (off v : Rat) (hv : 0 < v) :
+    |((Py.round (off / v) : Int) : Rat) * v - off| ≤ v / 2 := by
+  have h := C20_round_within_half (off / v)
+  have e : ((Py.round (off / v) : Int) : Rat) * v - off = (((Py.round (off / v) : Int) : Rat) - off / v) * v := by
+    field_simp
+  rw [e, abs_mul, abs_of_pos hv]
+  calc |((Py.round (off / v) : Int) : Rat) - off / v| * v ≤ (1 / 2) * v :=
+        mul_le_mul_of_nonneg_right h (le_of_lt hv)
+    _ = v / 2 := by ring
+
+section Siblings
+variable {α : Type} [Add α] [Sub α] [Mul α] [Div α] [OfNat α 0] [OfNat α 1] [NatCast α]
+
+/-- Sibling functions: `sphere_patch_weights` is `dome_patch_weights` followed by itself (upper half, mirrored
+lower half), for every row table and every row angle — the copy-pasted normalisation of the two functions is
+one and the same in the model, and the correspondence compares each with the real function. -/
+theorem C20_sphere_weights_are_dome_twice (twoPi : α) (s : Nat → α) (rows : List Nat) :
+    (sphereWeights twoPi s rows).take (domeWeights twoPi s rows).length = domeWeights twoPi s rows ∧
+    (sphereWeights twoPi s rows).drop (domeWeights twoPi s rows).length = domeWeights twoPi s rows := by
+  simp [sphereWeights]
+
+/-- Sibling halves of the horizontal band: the weights of the mirrored lower band are those of the upper band. -/
+theorem C20_band_weights_halves (twoPi : α) (s : Nat → α) (rows : List Nat) (k : Nat) :
+    ∃ half : List α, offsetWeights twoPi s rows k = half ++ half ∧
+      half.length = ((patchAreas twoPi s rows).take k).length := by
+  refine ⟨((patchAreas twoPi s rows).take k).map
+    (· / (sumL ((patchAreas twoPi s rows).take k) / (((patchAreas twoPi s rows).take k).length : α))), ?_, ?_⟩
+  · rfl
+  · simp
+
+end Siblings
+
+-- non-vacuity: the Tregenza table, offsets of 30° (quotient exactly 2.5: ties to even), 6° and 90°
+example : offsetPatchCountQ [30, 30, 24, 24, 18, 12, 6] (5 / 2) = 60 := by decide +kernel
+example : Py.round (15 / 2) = 8 ∧ offsetPatchCountQ [30, 30, 24, 24, 18, 12, 6] (15 / 2) = 144 := by decide +kernel
+example : rowCountsOf [30, 24] 1 = [30, 24] := by decide
+
+end Dome
